@@ -43,6 +43,7 @@ type Runner struct {
 	a0      uint64
 	recent  [][]wmsg // the last sessions (witness of delayed effects)
 	broken  bool // the environment can no longer be used (dead node, hung call, leaked mutex)
+	calib   bool // ... only because of a calibration limit of the harness (not a finding)
 }
 
 type wmsg struct {
@@ -324,6 +325,7 @@ func (rn *Runner) deliver(peer *StubPeer, variant string, sess []Msg, i int) boo
 		e.queued++
 		if e.queued > 900 {
 			rn.run.Count("rebuilds_because_syncing_node_queue_nearly_full", 1)
+			rn.calib = true
 			rn.broken = true // calibration: nobody drains the consensus queue (capacity 1000) before the switch to consensus
 		}
 	}
@@ -401,11 +403,14 @@ func (rn *Runner) dead(variant string, sess []Msg, i int, rname, kind string) {
 			return
 		}
 		n2.CS.Logger.SetHandler(capture)
+		defer func() {
+			defer func() { recover() }()
+			n2.Stop(false)
+			n2.WAL.Stop()
+		}()
 		if err := n2.Start(); err != nil {
 			startErr = "start: " + err.Error()
 		}
-		n2.Stop(false)
-		func() { defer func() { recover() }(); n2.WAL.Stop() }()
 	}()
 	rn.run.Count("restarts_after_failure", 1)
 	if startErr != "" {
